@@ -582,10 +582,10 @@ fn check_build(case: &Case, w: usize, r: &RunResult) -> Result<(), (String, Stri
     for (_, _, m) in &parsed.modules {
         for d in &m.definitions {
             owned_names.insert(d.name.as_str().to_string());
-            if let pyxis::grammar::ItemDefinitionInner::Type(t) = &d.inner {
-                if t.statements.iter().any(|s| s.field.is_vftable()) {
-                    owned_names.insert(format!("{}Vftable", d.name.as_str()));
-                }
+            // `<T>Vftable` belongs to `T` whether or not `T` declares a vftable block: there is
+            // one vftable struct for every type that declares one, none for the others.
+            if let pyxis::grammar::ItemDefinitionInner::Type(_) = &d.inner {
+                owned_names.insert(format!("{}Vftable", d.name.as_str()));
             }
         }
         for (n, _) in &m.extern_types {
